@@ -1,6 +1,6 @@
 (** C08 - script commands run strictly one after another with the requested timing. *)
 From Coq Require Import ZArith QArith List Bool Sorted.
-From VD Require Import Base.Bytes Model.ClientOps Model.Script Proofs.ScriptP Gen.Exprs Proofs.ExprTie.
+From VD Require Import Base.Bytes Model.ClientOps Model.Script Proofs.ScriptP Gen.ExprsTime Proofs.TieTime.
 Import ListNotations.
 
 (** Every operation - including the asynchronous ones: pause, drag, capture, expect - writes all its
@@ -39,7 +39,7 @@ Theorem C08_closes_at_end : forall ops r tr out,
 Proof. exact closes_at_end. Qed.
 Print Assumptions C08_closes_at_end.
 
-(** With the source's own arithmetic ([Gen/Exprs.v], regenerated from build_command_list on every run): `pause a` under
+(** With the source's own arithmetic ([Gen/Exprs*.v], regenerated from build_command_list on every run): `pause a` under
     --warp w lasts a / w, and the delay between commands is delay / 1000 seconds. *)
 Theorem C08_pause_is_requested_over_warp : forall r a w,
   exists r', run_sop r (SPause (gen_pause_duration a w)) = SOk [] r' /\ (rs_time r' == rs_time r + a / w)%Q /\ rs_client r' = rs_client r.
